@@ -4,6 +4,7 @@ import (
 	"fmt"
 	"log"
 
+	"github.com/HobbyOSs/gosk/pkg/cpu"
 	"github.com/HobbyOSs/gosk/pkg/ocode"
 	"github.com/HobbyOSs/gosk/pkg/variantstack"
 )
@@ -24,6 +25,9 @@ func GenerateX86(ocodes []ocode.Ocode, ctx *CodeGenContext) []byte {
 	log.Printf("debug: [codegen] === ocode processing start ===\n")
 	for _, oc := range ocodes {
 		log.Printf("debug: [codegen] Processing ocode: %s\n", oc)
+		if oc.BitMode != 0 {
+			ctx.BitMode = cpu.BitMode(oc.BitMode)
+		}
 		code, err := processOcode(oc, ctx, &machineCode)
 		if err != nil {
 			log.Printf("error: Failed to process ocode: %v", err)
